@@ -83,6 +83,10 @@ def load(repo) -> TypeIndex:
                 d = pickle.load(f)
             ti = TypeIndex(d["types"], d["callees"], d["errors"], d["wall"], True)
             _MEM[dg] = ti
+            try:
+                os.utime(path, None)  # least-recently-USED eviction: a hit keeps the entry young
+            except OSError:
+                pass
             return ti
         except Exception:
             pass
